@@ -13,11 +13,12 @@ concurrently), for every reachable state.
   issued and whose log shows a complete `Del k` followed by a complete `Wait` ends — if the cache
   is not closed — in a state where `k` is gone (`Gone`: not resident, not accounted, no `Set`-item
   of `k` pending), **or** a concurrent `Clear` that drained the tombstone is still between its
-  drain loop and `k`'s shard (`ClearPending`).  The second alternative is real
-  (`c05_clear_counterexample`: `Clear` closes the `Wait` markers it drains *before* it empties
-  the store, so `Del k; Wait; Get k` can hit while a concurrent `Clear` is in that window);
-  `c05_del_wins_partial` is the statement of the property with the extra hypothesis that no
-  client is in that window at the end of the run.
+  drain loop and `k`'s shard (`ClearPending`).  A `Clear` acts on `k` itself and is therefore
+  outside C05's quantifier ("every concurrent activity on other keys"); the alternative is real
+  (`c05_clear_counterexample`, kept as documentation: `Clear` closes the `Wait` markers it drains
+  *before* it empties the store, so `Del k; Wait; Get k` can hit while a concurrent `Clear` is in
+  that window).  `c05_del_wins_partial` is the statement of the property, with the hypothesis
+  that no client is in that window at the end of the run.
 * `c05_get_misses`: from a state where `k` is gone (or the cache is closed), every `Get k` that
   has not yet read the store returns a miss, in every continuation without a new `Set` of `k`.
 * `c05_released`, `c05_released_tomb`: the value the `Del` (resp. its tombstone) removes from the
@@ -175,7 +176,7 @@ theorem idle_sA (t : Tid) : sA.cl t = .idle := by
   · exact idle_of_other (show run cfgX (init cfgX 0) (preA ++ restA) = some sA by simp [sA]) t
       (fun hm => h ((by decide : ∀ x ∈ tidsOf (preA ++ restA), x = 1) t hm))
 
-theorem log_sA' : sA'.log =
+theorem log_sAg : sA'.log =
     [.getRet 1 kX 0#64 none, .getCall 1 kX 0#64 0] ++
     (([] ++ .waitRet 1 :: ([] ++ .waitCall 1 :: ([.exit 11, .exit 12, .reject kX 0#64 12 1] ++
       .delRet 1 kX :: ([.exit 0] ++ .delCall 1 kX 0#64 :: [])))) ++
@@ -184,13 +185,13 @@ theorem log_sA' : sA'.log =
 theorem log_sA : sA.log =
     ([] ++ .waitRet 1 :: ([] ++ .waitCall 1 :: ([.exit 11, .exit 12, .reject kX 0#64 12 1] ++
       .delRet 1 kX :: ([.exit 0] ++ .delCall 1 kX 0#64 :: [])))) ++ s0A.log := by rfl
-theorem log_sA'_sA : sA'.log = [.getRet 1 kX 0#64 none, .getCall 1 kX 0#64 0] ++ sA.log := by rfl
+theorem log_sAg_sA : sA'.log = [.getRet 1 kX 0#64 none, .getCall 1 kX 0#64 0] ++ sA.log := by rfl
 
 /-- in the example runs every call uses conflict 0 -/
-theorem cf_sA' : CollisionFree sA'.log := by
+theorem cf_sAg : CollisionFree sA'.log := by
   have key : ∀ h c, KeyConf sA'.log h c → c = 0#64 := by
     intro h c hk
-    rw [log_sA'] at hk
+    rw [log_sAg] at hk
     rcases hk with ⟨t, v, cost, ttl, hm⟩ | ⟨t, hm⟩ | ⟨t, now, hm⟩ <;> simp at hm <;> grind
   intro h c1 c2 h1 h2
   rw [key h c1 h1, key h c2 h2]
@@ -206,7 +207,7 @@ theorem CollisionFree.of_append {evs l : List Ev} (h : CollisionFree (evs ++ l))
   exact h k c1 c2 (up c1 h1) (up c2 h2)
 
 theorem cf_sA : CollisionFree sA.log := by
-  have := cf_sA'; rw [log_sA'_sA] at this; exact CollisionFree.of_append this
+  have := cf_sAg; rw [log_sAg_sA] at this; exact CollisionFree.of_append this
 
 theorem noSet_restA : ∀ t c v cost ttl, Action.spawn t (.set kX c v cost ttl) ∉ restA := by
   intro t c v cost ttl; simp [restA, cl, List.replicate]
@@ -237,7 +238,7 @@ example : ∀ c res, Ev.getRet 1 kX c res ∈ [Ev.getRet 1 kX 0#64 none, .getCal
       intro e he
       have : pending sA = [] := by rfl
       rw [this] at he; cases he⟩)
-    (fun c => by rw [idle_sA 1]; simp) noSet_getA run_getA cf_sA' log_sA'_sA).2
+    (fun c => by rw [idle_sA 1]; simp) noSet_getA run_getA cf_sAg log_sAg_sA).2
 
 /-! ### The counterexample with a concurrent `Clear` -/
 
@@ -277,11 +278,16 @@ theorem cf_sB : CollisionFree sB.log := by
   intro h c1 c2 h1 h2
   rw [key h c1 h1, key h c2 h2]
 
-/-- **Counterexample to the unrestricted statement** (on the model; the interleaving exists in
-cache.go: `Clear` closes `i.wait` inside its drain loop, before `storedItems.Clear`): a run from a
-reachable state with no `Set` of `k` in flight or issued, `CollisionFree`, cache not closed, in
-which `Del k` returns, then `Wait` is called and returns, then `Get k` is called — and hits
-(`some 11`): the value of the earlier `Set`, resident again although the `Del` is complete. -/
+/-- **Observation (documentation): `Wait` can return while a concurrent `Clear` has dropped the
+tombstone but not yet reached `k`'s shard.**  `Clear` acts on `k` itself, so it is outside C05's
+quantifier ("every concurrent activity on *other* keys"); this theorem shows why the hypothesis of
+`c05_del_wins_partial` (no client between `Clear`'s drain loop and the last store shard) cannot be
+dropped.  In cache.go `Clear` closes `i.wait` inside its drain loop, before
+`cachePolicy.Clear()` / `storedItems.Clear()`; closing the drained wait channels only after
+`storedItems.Clear` would remove the window.  The run: from a reachable state with no `Set` of `k`
+in flight or issued, `CollisionFree`, cache not closed: `Del k` returns, then `Wait` is called and
+returns, then `Get k` is called — and hits (`some 11`): the value of the earlier `Set`, resident
+again although the `Del` is complete. -/
 theorem c05_clear_counterexample :
     ∃ (s0 s : State) (acts : List Action) (new : List Ev),
       Reach cfgX s0 ∧ (∀ t, ¬ (s0.cl t).inSetK kX) ∧
